@@ -134,7 +134,7 @@ def run_config(cfg):
 
 
 def _run_step(cfg):
-    from tlv.sx.core import ctx, sym_or, sym_not, sym_and
+    from tlv.sx.core import ctx, sym_or, sym_not, sym_and, BudgetExceeded
     from tlv.sx.symbytes import sym_bytes
     from tlv.harness.common import explore_cfg
     qf = _install()
@@ -152,6 +152,11 @@ def _run_step(cfg):
         payload = Probe(raw.e)
         try:
             frames = qf.parse_frames(payload, _Src())
+        except BudgetExceeded:
+            # more branch decisions on one path than any terminating parse of n bytes makes: candidate for non-termination,
+            # decided by the replay (real parser on the concrete bytes under a time limit)
+            c.fail("loop-terminates", "decision budget of one path exhausted inside parse_frames")
+            return {"outcome": "budget"}
         except Exception as e:
             return {"outcome": "error:" + type(e).__name__}
         c.check(len(frames) == 1, "one-frame-per-iteration")
@@ -174,7 +179,7 @@ class _Hang(Exception):
 
 def _run_loop(cfg):
     import signal
-    from tlv.sx.core import ctx
+    from tlv.sx.core import ctx, BudgetExceeded
     from tlv.sx.symbytes import sym_bytes
     from tlv.harness.common import explore_cfg
     qf = _install()
@@ -194,6 +199,10 @@ def _run_loop(cfg):
         except _Hang:
             c.fail("loop-terminates", "no result after 20 s on one path")
             return {"outcome": "hang"}
+        except BudgetExceeded:
+            signal.alarm(0)
+            c.fail("loop-terminates", "decision budget of one path exhausted inside parse_frames")
+            return {"outcome": "budget"}
         except Exception as e:
             out = "error:" + type(e).__name__
         finally:
